@@ -262,4 +262,5 @@ def run_sim(rng, n, tag='devsim', foreign_p=0.35, gen=None):
             if r:
                 finds.append((r[0], c['cid'], r[1] + ' [' + c['g'].desc() + ']', c['text']))
     stats['cases'] = len(cases)
+    stats['distinct_cases'] = qv.distinct_nontrivial([c['text'] for c in cases])
     return finds, stats, d
